@@ -361,7 +361,7 @@ func runSock(r *report.Run, proto string, caseNo, attempt int, rng *report.Rand,
 		d := d
 		if d.sessionLost() {
 			conclusive = false
-			why = d.name + ": the session was lost before the marker could be sent"
+			why = d.name + ": the session was lost before the marker could be sent; Send errors so far: " + sendErrors(dirs)
 			continue
 		}
 		// Grace period before the marker (no influence on the verdict): let the receiver finish parsing what was
@@ -453,6 +453,21 @@ func judgeSock(r *report.Run, proto string, d *sockDir) {
 			}
 		}
 	}
+}
+
+// sendErrors lists the distinct classes of Send errors of an attempt (diagnostics).
+func sendErrors(dirs []*sockDir) string {
+	seen := map[string]int{}
+	for _, d := range dirs {
+		for _, list := range append([][]*sockSend{d.tail}, d.lists...) {
+			for _, s := range list {
+				if s.returned && s.err != nil {
+					seen[d.name+" "+errClass(s.err)]++
+				}
+			}
+		}
+	}
+	return fmt.Sprint(seen)
 }
 
 func sentLens(all [][]*sockSend) []int {
